@@ -59,6 +59,10 @@ pub fn run_script<C: Suite>(script: &Value, idx: u64, rep: &mut Report, want_eve
     let mut events = vec![];
     let seed = script.get("seed").and_then(|x| x.as_u64()).unwrap_or(1);
     let mut it = Interp::<C>::new(seed);
+    it.log_served = want_events;
+    if let Some(m) = script.get("id_mode").and_then(|x| x.as_str()) {
+        it.id_mode = m.to_string();
+    }
     if C::IS_TOY {
         if let Err(e) = interp::toy_setup(script) {
             rep.script_errors += 1;
@@ -85,8 +89,10 @@ pub fn run_script<C: Suite>(script: &Value, idx: u64, rep: &mut Report, want_eve
         let res = match it.step(st) {
             Ok(r) => r,
             Err(e) => {
-                // a missing object after an earlier deviation is its consequence, not a script defect
-                if !bad {
+                // a missing object after an earlier deviation is its consequence, not a script defect;
+                // in record mode the scenario simply ends where an earlier call returned an error
+                let lenient = script.get("lenient").and_then(|x| x.as_bool()).unwrap_or(false) && e.0.starts_with("missing handle");
+                if !bad && !lenient {
                     rep.script_errors += 1;
                     rep.lines.push(json!({"script": idx, "step": si, "script_error": e.0}).to_string());
                 }
@@ -177,6 +183,104 @@ pub fn parse_line(line: &str) -> Option<Value> {
     }
 }
 
+pub fn strip_nulls(v: &mut Value) {
+    match v {
+        Value::Object(m) => {
+            let keys: Vec<String> = m.iter().filter(|(_, x)| x.is_null()).map(|(k, _)| k.clone()).collect();
+            for k in keys {
+                m.remove(&k);
+            }
+            for (_, x) in m.iter_mut() {
+                strip_nulls(x);
+            }
+        }
+        Value::Array(a) => {
+            for x in a.iter_mut() {
+                strip_nulls(x);
+            }
+        }
+        _ => {}
+    }
+}
+
+pub fn fnv64(b: &[u8]) -> u64 {
+    let mut h: u64 = 0xcbf29ce484222325;
+    for x in b {
+        h ^= *x as u64;
+        h = h.wrapping_mul(0x100000001b3);
+    }
+    h
+}
+
+/// The structure of a TLC-emitted script: who calls what on which objects with
+/// which faults -- without the values (draws, oracle answers, expectations).
+pub fn structure_of(script: &Value) -> Value {
+    let mut steps = vec![];
+    if let Some(a) = script.get("steps").and_then(|x| x.as_array()) {
+        for st in a {
+            let mut st = st.clone();
+            if let Value::Object(m) = &mut st {
+                m.remove("rng");
+                m.remove("rng32");
+                m.remove("expect");
+            }
+            steps.push(st);
+        }
+    }
+    json!({"script": script.get("script").cloned().unwrap_or(Value::Null), "steps": steps})
+}
+
+/// fv run --suite S [--q Q] --seed N --events FILE [--idmap JSON] < structure scripts
+/// code -> spec: executes value-free scripts with a seeded source and the real
+/// hashes (toy: recording oracle) and writes one event per step.
+fn cmd_run(args: &[String]) -> i32 {
+    let suite = arg_val(args, "--suite").unwrap_or_else(|| "toy".into());
+    let q: u64 = arg_val(args, "--q").and_then(|s| s.parse().ok()).unwrap_or(23099);
+    let seed: u64 = arg_val(args, "--seed").and_then(|s| s.parse().ok()).unwrap_or(1);
+    let idmap: Option<Value> = arg_val(args, "--idmap").and_then(|s| serde_json::from_str(&s).ok());
+    let id_mode = arg_val(args, "--id-mode").unwrap_or_else(|| "plain".into());
+    let out = arg_val(args, "--events").expect("--events");
+    let mut f = std::io::BufWriter::new(std::fs::File::create(out).expect("events file"));
+    let stdin = std::io::stdin();
+    let mut idx = 0u64;
+    let mut rep = Report::default();
+    for line in stdin.lock().lines() {
+        let line = match line {
+            Ok(l) => l,
+            Err(_) => break,
+        };
+        let mut script = match parse_line(&line) {
+            Some(s) => s,
+            None => continue,
+        };
+        idx += 1;
+        script["suite"] = json!(suite);
+        script["seed"] = json!(seed.wrapping_mul(1000003).wrapping_add(idx));
+        if suite == "toy" {
+            script["q"] = json!(q);
+            script["p"] = json!(0);
+            if let Value::Object(m) = &mut script {
+                m.remove("oracle");
+            }
+        }
+        if let Some(m) = &idmap {
+            script["idmap"] = m.clone();
+        }
+        script["id_mode"] = json!(id_mode);
+        script["lenient"] = json!(true);
+        let evs = run_any(&script, idx, &mut rep, true);
+        let _ = writeln!(f, "{}", json!({"op": "reset", "script": idx, "prop": script["script"], "suite": suite, "id_mode": id_mode}));
+        for mut e in evs {
+            strip_nulls(&mut e);
+            let _ = writeln!(f, "{}", e);
+        }
+    }
+    let _ = f.flush();
+    println!("SUMMARY {}", json!({"scripts": rep.scripts, "steps": rep.steps, "script_errors": rep.script_errors,
+        "cover": rep.cover, "errors": rep.lines.iter().take(5).collect::<Vec<_>>()}));
+    0
+}
+
 fn arg_val(args: &[String], name: &str) -> Option<String> {
     args.iter().position(|a| a == name).and_then(|i| args.get(i + 1).cloned())
 }
@@ -187,6 +291,10 @@ fn cmd_replay(args: &[String]) -> i32 {
     let fail_dir = arg_val(args, "--fail-dir");
     let events_out = arg_val(args, "--events");
     let sample = arg_val(args, "--sample");
+    let struct_out = arg_val(args, "--struct-out");
+    let struct_max: usize = arg_val(args, "--struct-max").and_then(|s| s.parse().ok()).unwrap_or(20000);
+    let structs: Arc<Mutex<(std::collections::HashSet<u64>, Vec<String>)>> = Arc::new(Mutex::new((Default::default(), vec![])));
+    let want_struct = struct_out.is_some();
     let mut sample_done = false;
     let (tx, rx) = mpsc::channel::<(u64, String)>();
     let rx = Arc::new(Mutex::new(rx));
@@ -197,6 +305,7 @@ fn cmd_replay(args: &[String]) -> i32 {
         let rx = rx.clone();
         let total = total.clone();
         let ev_file = ev_file.clone();
+        let structs = structs.clone();
         hs.push(std::thread::spawn(move || {
             let mut rep = Report::default();
             loop {
@@ -207,6 +316,15 @@ fn cmd_replay(args: &[String]) -> i32 {
                 };
                 match parse_line(&line) {
                     Some(script) => {
+                        if want_struct {
+                            let s = structure_of(&script);
+                            let txt = s.to_string();
+                            let h = fnv64(txt.as_bytes());
+                            let mut g = structs.lock().unwrap();
+                            if g.1.len() < struct_max && g.0.insert(h) {
+                                g.1.push(txt);
+                            }
+                        }
                         let evs = run_any(&script, idx, &mut rep, ev_file.is_some());
                         if let Some(f) = &ev_file {
                             let mut f = f.lock().unwrap();
@@ -268,6 +386,10 @@ fn cmd_replay(args: &[String]) -> i32 {
             let _ = std::fs::write(format!("{d}/{name}.json"), serde_json::to_string(s).unwrap());
         }
     }
+    if let Some(p) = struct_out {
+        let g = structs.lock().unwrap();
+        let _ = std::fs::write(p, g.1.join("\n") + "\n");
+    }
     let failed: Vec<String> = rep.failed_scripts.iter().map(|(n, _)| n.clone()).collect();
     let _ = writeln!(
         out,
@@ -285,6 +407,7 @@ fn main() {
     let code = match args.get(1).map(|s| s.as_str()) {
         Some("replay") => cmd_replay(&args[2..]),
         Some("record") => record::cmd_record(&args[2..]),
+        Some("run") => cmd_run(&args[2..]),
         _ => {
             eprintln!("usage: fv replay|record ...");
             2
